@@ -61,9 +61,10 @@ Definition dloop (F : nat -> Z -> Z -> Z * Z) (top sh cnt : nat) (st : list Z * 
 Lemma dloop_spec (F : nat -> Z -> Z -> Z * Z) (g : nat -> Z -> Z) (u : nat -> Z) (fin : bool)
     (top sh cnt : nat) (r : list Z) (c : Z) :
   (cnt <= top)%nat -> vbound u -> Z.abs c <= 2 ^ 62 ->
-  (forall j c', (j < cnt)%nat -> Z.abs c' <= 2 ^ 62 ->
-     fst (F j (nthZ r (top - sh - j - 1)) c') = g j (wrap b (u j + c')) /\
-     ((S j < cnt)%nat \/ fin = false -> snd (F j (nthZ r (top - sh - j - 1)) c') = bdiv b (u j + c'))) ->
+  (forall j, (j < cnt)%nat -> Z.abs (car b u c j) <= 2 ^ 62 ->
+     fst (F j (nthZ r (top - sh - j - 1)) (car b u c j)) = g j (wrap b (u j + car b u c j)) /\
+     ((S j < cnt)%nat \/ fin = false ->
+      snd (F j (nthZ r (top - sh - j - 1)) (car b u c j)) = bdiv b (u j + car b u c j))) ->
   let res := dloop F top sh cnt (r, c) in
   (fin = false -> snd res = car b u c cnt) /\ length (fst res) = length r /\
   forall i, nthZ (fst res) i =
@@ -86,7 +87,7 @@ Proof.
     assert (Hcj : Z.abs (car b u c j) <= 2 ^ 62) by (apply car_hr; auto).
     assert (Er : nthZ r' (top - sh - j - 1) = nthZ r (top - sh - j - 1)).
     { rewrite In. natb; try reflexivity; lia. }
-    rewrite Er. destruct (HF j (car b u c j) Hj Hcj) as [F1 F2].
+    rewrite Er. destruct (HF j Hj Hcj) as [F1 F2].
     destruct (F j (nthZ r (top - sh - j - 1)) (car b u c j)) as [x c''].
     cbn [fst snd] in *. subst x. split; [|split].
     + intros Hn. rewrite car_S. apply F2. destruct Hn as [Hn|Hn]; [left; lia|right; exact Hn].
@@ -140,7 +141,7 @@ Proof.
       (upd r0 (rs - j - 1) x, c')) in HD
     by (rewrite Nat.sub_0_r; reflexivity).
   destruct HD as (D1 & D2 & D3).
-  - intros j c' Hj Hc'. rewrite Nat.sub_0_r.
+  - intros j Hj Hc'. set (c' := car b u c j) in *. rewrite Nat.sub_0_r.
     rewrite (middle_step_ideal 64 b lsh Hb64 Hl); [|apply Ha|exact Hc'|intros E; apply Hr; exact E].
     cbn [fst snd]. split; [reflexivity|intros _; reflexivity].
   - split; [apply D1; reflexivity|]. split; [exact D2|].
@@ -171,7 +172,7 @@ Proof.
       (upd r0 (rs - j - 1) x, c')) in HD
     by (rewrite Nat.sub_0_r; reflexivity).
   destruct HD as (D1 & D2 & D3).
-  - intros j c' Hj Hc'. rewrite Nat.sub_0_r.
+  - intros j Hj Hc'. set (c' := car b u c j) in *. rewrite Nat.sub_0_r.
     rewrite (middle_step_sub_ideal 64 b lsh Hb64 Hl); [|apply Ha|exact Hc'|apply Hr].
     cbn [fst snd]. split; [reflexivity|intros _; reflexivity].
   - split; [apply D1; reflexivity|]. split; [exact D2|].
@@ -182,18 +183,20 @@ Qed.
 (* ---------- top phase ---------- *)
 
 Lemma top_phase_spec (zf : bool) (lsh : Z) (re : nat) (r : list Z) (c : Z) :
-  0 <= lsh < b -> (zf = false -> hrl r) -> Z.abs c <= 2 ^ 62 ->
-  let u := fun t : nat => (if zf then 0 else nthZ r (re - t - 1)) * 2 ^ lsh in
+  0 <= lsh < b -> (zf = false -> forall i, (i < re)%nat -> Z.abs (nthZ r i) <= 2 ^ 62) -> Z.abs c <= 2 ^ 62 ->
+  let u := fun t : nat => if Nat.ltb t re then (if zf then 0 else nthZ r (re - t - 1)) * 2 ^ lsh else 0 in
   let res := fst (top_phase 64 zf b lsh re (r, c)) in
   length res = length r /\
   forall i, nthZ res i =
     if (Nat.ltb i re && Nat.ltb i (length r))%bool then dig b u c (re - 1 - i) else nthZ r i.
 Proof.
   intros Hl Hr Hc u.
-  assert (Hx : forall t : nat, Z.abs (if zf then 0 else nthZ r (re - t - 1)) <= 2 ^ 62).
-  { intros t. destruct zf; [pose proof H62_pos; cbn [Z.abs]; lia|apply Hr; reflexivity]. }
+  assert (Hx : forall t : nat, (t < re)%nat -> Z.abs (if zf then 0 else nthZ r (re - t - 1)) <= 2 ^ 62).
+  { intros t Ht. destruct zf; [pose proof H62_pos; cbn [Z.abs]; lia|apply Hr; [reflexivity|lia]]. }
   assert (Hu : vbound u).
-  { intros t. unfold u. apply shifted_bound; auto. pose proof H62_pos; lia. }
+  { intros t. unfold u. destruct (Nat.ltb_spec t re).
+    - apply shifted_bound; auto. pose proof H62_pos; lia.
+    - pose proof (pow2_pos (b - 1) ltac:(lia)). pose proof H62_pos. cbn [Z.abs]. nia. }
   pose proof (dloop_spec
     (fun j y c' => let x0 := if zf then 0 else y in
        if Nat.eqb j (re - 1) then (final_step_assign 64 b lsh x0 c', c')
@@ -209,8 +212,11 @@ Proof.
       (upd r0 (re - j - 1) x, c'))).
   2:{ intros [r0 c0] j Hj. rewrite Nat.sub_0_r. destruct (Nat.eqb j (re - 1)); reflexivity. }
   destruct HD as (_ & D2 & D3).
-  - intros j c' Hj Hc'. rewrite Nat.sub_0_r. specialize (Hx j).
+  - intros j Hj Hc'. set (c' := car b u c j) in *. rewrite Nat.sub_0_r. specialize (Hx j Hj).
     unfold final_step_assign, middle_step_assign.
+    assert (Eu : u j = (if zf then 0 else nthZ r (re - j - 1)) * 2 ^ lsh).
+    { unfold u. destruct (Nat.ltb_spec j re); [reflexivity|lia]. }
+    rewrite Eu.
     destruct (Nat.eqb_spec j (re - 1)) as [E|E]; cbn [fst snd].
     + rewrite fc64 by auto. split; [reflexivity|]. intros [Hn|Hn]; [lia|discriminate].
     + rewrite mc64 by auto. cbn [fst snd]. split; [reflexivity|intros _; reflexivity].
